@@ -11,7 +11,7 @@ from .common import repo_on_path, MachineryError
 
 repo_on_path()
 from bec2format import Bf3File                                  # noqa: E402
-from bec2format.hwcids import REV_HWCID_MAP                     # noqa: E402  (name table = data handed to TLC)
+from bec2format.hwcids import HWCID_MAP, REV_HWCID_MAP          # noqa: E402  (only RECORDED: judged against spec/HwcidNames.tla)
 
 # first tag type -> number of 64 KiB pages its range offers (spec: KnownRanges); used only to size images
 PAGES = {0x34: 1, 0x35: 4, 0x39: 4, 0x3D: 2, 0x40: 8, 0x48: 1, 0x70: 4, 0x83: 1, 0x84: 32}
@@ -19,15 +19,17 @@ MAPPED = [0x35, 0x39, 0x3D, 0x40, 0x70, 0x83, 0x84]
 IGNORED = [0x34, 0x48]
 PERIPH = {0x35: 0x9B, 0x39: 0xBE, 0x3D: 0xAD, 0x40: 0xC0}
 PROTOCOLS = ["BRP", "BRP-SER", "BRP-CCID", "BRP-TCP", "BRP-OSDP", "ISO7816-4"]
-KNOWN_IDS = sorted(REV_HWCID_MAP)
+KNOWN_IDS = list(range(0x01, 0xC4))          # listed ids and the holes between them (the generator does not consult the library)
 
 
 def chars(s):
     return [ord(c) for c in s]
 
 
-def names_table():
-    return [[i, chars(n)] for i, n in sorted(REV_HWCID_MAP.items())]
+def run_names(tid):
+    """the library's hardware-id tables as an event; the pinned list of the specification is the judge"""
+    return {"tid": tid, "op": "names", "kind": "ok", "cls": "", "fwd": [[chars(n), int(i)] for n, i in HWCID_MAP.items()],
+            "rev": [[int(i), chars(n)] for i, n in REV_HWCID_MAP.items()]}
 
 
 # ------------------------------------------------------------------ lines, content, attribution
@@ -479,7 +481,7 @@ def gen_file(r, tier="quick", big=None, small=False):
         pend_now = has_ver or (prev_ign and prev_pending and not has_ver)
         prev_reboot, prev_ign = reboot, ign
         prev_pending = pend_now and not reboot
-    enforce = r.random() < 0.9
+    enforce = r.random() < 0.7
     return items, L, enforce
 
 
